@@ -21,6 +21,7 @@ import sys
 import tempfile
 import traceback
 
+sys.setrecursionlimit(100000)          # recursive executable specs (e.g. first_mz over 1024 offsets)
 HERE = os.path.dirname(os.path.abspath(__file__))
 ROOT = os.path.dirname(HERE)
 sys.path.insert(0, ROOT)
@@ -85,7 +86,7 @@ def load_specs():
             path = os.path.join(d, fn)
             exec(compile(open(path).read(), path, "exec"), env)
     for k in ("forall", "exists", "implies", "iff", "ite", "bxor", "sub", "file_content", "file_pos", "fits_bytes", "aes_enc", "aes_dec",
-              "hmac_sha256", "sha256", "rsa_ok", "rsa_pt", "rsa_k", "keypair"):
+              "hmac_sha256", "sha256", "rsa_ok", "rsa_pt", "rsa_k", "keypair", "xview"):
         env[k] = getattr(rt, k)
     return env
 
@@ -261,7 +262,14 @@ class ConcreteContract:
 
 
 def build_args(contract, inputs, tmpfiles):
-    return {name: from_json(inputs[name], tmpfiles) for name, _ in contract.params if name in inputs}
+    out = {}
+    for name, ty in contract.params:
+        if name in inputs:
+            out[name] = from_json(inputs[name], tmpfiles)
+        elif (ty or "").startswith("class:"):
+            modn, qual = ty[6:].split(":")
+            out[name] = getattr(importlib.import_module(modn), qual)
+    return out
 
 
 def build_logicals(contract, inputs):
@@ -297,6 +305,9 @@ def run_case(fn, cc, inputs, consts, timeout_s=5, is_generator=False, mode="func
         extra = {}
         try:
             call_args = dict(args)
+            import inspect
+            if inspect.ismethod(fn) and cc.c.params and cc.c.params[0][0] in ("cls",):
+                call_args.pop(cc.c.params[0][0], None)      # classmethod: cls is already bound
             r = fn(**call_args)
             if mode == "all":
                 r = list(r)
@@ -390,7 +401,7 @@ def domains_of(contract, specenv=None):
 
 def search(fn, cc, contract, budget, seed, timeout_s, mode):
     doms, consts = domains_of(contract, cc.specenv)
-    names = [n for n, _ in contract.params]
+    names = [n for n, ty in contract.params if not (ty or "").startswith("class:")]
     if "cases" in doms:
         tried = pre_false = 0
         for inputs in doms["cases"]:
